@@ -1,7 +1,8 @@
 (* Correspondence and monitor functions for C10 (evaluated by vm_compute; nothing here is a theorem). *)
 From Coq Require Import ZArith QArith List Bool String.
-From Cobra.IO Require Import Str JVal DictModel DictCheck SbmlId.
-From Cobra.Gen Require Import SbmlTables.
+From Cobra.IO Require Import Str JVal DictModel DictCheck SbmlId SbmlNum SbmlDoc.
+From Cobra.GPR Require Syntax Escape.
+From Cobra.Gen Require Import SbmlTables GprTables.
 Import ListNotations.
 Open Scope Z_scope.
 
@@ -14,14 +15,10 @@ Definition m_rev (kind : Z) (s : str) : str :=
 Definition m_fwd (kind : Z) (s : str) : str :=
   if kind =? 0 then f_gene parse_dec sb_dot (prefix_of kind) s else f_fwd parse_dec (prefix_of kind) s.
 
-(* genes: the marker __SBML_DOT__ must not occur either *)
-Fixpoint contains (pat s : str) : bool :=
-  match s with
-  | [] => is_nil pat
-  | _ :: s' => starts_with pat s || contains pat s'
-  end.
+(* genes: the marker __SBML_DOT__ must not occur in what is written either (SbmlDoc.gene_sid_ok) *)
 Definition id_ok (kind : Z) (s : str) : bool :=
-  sid_ok (prefix_of kind) s && (negb (kind =? 0) || negb (contains sb_dot (prefix_of kind ++ s))).
+  sid_ok (prefix_of kind) s &&
+  (negb (kind =? 0) || negb (contains sb_dot (prefix_of kind ++ escape to_dec s))).
 
 (* chr() accepts 0 .. 0x10FFFF *)
 Definition chr_ok (s : str) : bool := forallb (fun c => (0 <=? c) && (c <=? 1114111)) s.
@@ -60,12 +57,94 @@ Definition bound_codes (c : cfg) (replace : bool) (k : str * ebound * ebound * (
        then [] else [(3%nat, 2%nat)])
   end.
 
+(* ---------------------------------------------------------------- the document-level model (SbmlDoc.v) *)
+Definition cur_env : senv :=
+  mkEnv sb_prefix_gene sb_prefix_specie sb_prefix_reaction sb_prefix_group sb_dot
+        sb_lower_bound_id sb_upper_bound_id sb_zero_bound_id sb_minus_inf_id sb_plus_inf_id sb_reader_wide_default.
+(* GPRCleaner.visit_Name with the tables regenerated from core/gene.py *)
+Definition cur_clean : str -> str :=
+  Escape.unescape_name repl_table esc_prefix_strip (Z.to_nat esc_prefix_striplen).
+Definition m_write : cfg -> smodel -> result doc := write_doc to_dec wnum15 cur_env.
+Definition m_read : cfg -> doc -> result smodel := read_doc parse_dec cur_clean cur_env.
+
+Definition opt_eqb {A} (eqb : A -> A -> bool) (a b : option A) : bool :=
+  match a, b with Some x, Some y => eqb x y | None, None => true | _, _ => false end.
+Definition sref_eqb (a b : str * Q) : bool := str_eqb (fst a) (fst b) && Qeq_bool (snd a) (snd b).
+Definition kind_eqb (a b : gkind) : bool :=
+  match a, b with
+  | KCollection, KCollection | KClassification, KClassification | KPartonomy, KPartonomy => true
+  | _, _ => false
+  end.
+
+Definition sp_eqb (a b : dspecies) : bool :=
+  str_eqb (sp_id a) (sp_id b) && str_eqb (sp_name a) (sp_name b) && str_eqb (sp_comp a) (sp_comp b) &&
+  opt_eqb Z.eqb (sp_charge a) (sp_charge b) && str_eqb (sp_formula a) (sp_formula b) &&
+  Bool.eqb (sp_boundary a) (sp_boundary b).
+Definition param_eqb (a b : str * ebound * bool) : bool :=
+  str_eqb (fst (fst a)) (fst (fst b)) && eb_eqb (snd (fst a)) (snd (fst b)) && Bool.eqb (snd a) (snd b).
+(* reactants / products: document order is the (arbitrary) order of Reaction.metabolites; compared sorted *)
+Definition dr_eqb (a b : dreaction) : bool :=
+  str_eqb (dr_id a) (dr_id b) && str_eqb (dr_name a) (dr_name b) && Bool.eqb (dr_reversible a) (dr_reversible b) &&
+  Bool.eqb (dr_fast a) (dr_fast b) && str_eqb (dr_lb a) (dr_lb b) && str_eqb (dr_ub a) (dr_ub b) &&
+  list_eqb sref_eqb (sort_by fst (dr_reactants a)) (sort_by fst (dr_reactants b)) &&
+  list_eqb sref_eqb (sort_by fst (dr_products a)) (sort_by fst (dr_products b)) &&
+  opt_eqb Syntax.gpr_eqb (dr_assoc a) (dr_assoc b).
+Definition gp_eqb (a b : str * str * str) : bool :=
+  str_eqb (fst (fst a)) (fst (fst b)) && str_eqb (snd (fst a)) (snd (fst b)) && str_eqb (snd a) (snd b).
+Definition dobj_eqb (a b : str * bool * list (str * Q)) : bool :=
+  str_eqb (fst (fst a)) (fst (fst b)) && Bool.eqb (snd (fst a)) (snd (fst b)) && list_eqb sref_eqb (snd a) (snd b).
+(* members: Group.members is a set; compared sorted *)
+Definition dg_eqb (a b : dgroup) : bool :=
+  str_eqb (dg_id a) (dg_id b) && str_eqb (dg_name a) (dg_name b) && opt_eqb kind_eqb (dg_kind a) (dg_kind b) &&
+  list_eqb str_eqb (sort_by (fun s => s) (dg_members a)) (sort_by (fun s => s) (dg_members b)).
+Definition doc_eqb (a b : doc) : bool :=
+  str_eqb (d_id a) (d_id b) && str_eqb (d_name a) (d_name b) &&
+  list_eqb (fun p q => str_eqb (fst p) (fst q) && str_eqb (snd p) (snd q)) (d_comps a) (d_comps b) &&
+  list_eqb sp_eqb (d_species a) (d_species b) && list_eqb param_eqb (d_params a) (d_params b) &&
+  list_eqb dr_eqb (d_rxns a) (d_rxns b) && list_eqb gp_eqb (d_gps a) (d_gps b) &&
+  str_eqb (d_active a) (d_active b) && list_eqb dobj_eqb (d_objs a) (d_objs b) &&
+  list_eqb dg_eqb (d_groups a) (d_groups b).
+
+Definition err_eqb (a b : err) : bool :=
+  match a, b with
+  | EValue, EValue | EKey, EKey | EType, EType | EAttr, EAttr | EOther, EOther => true
+  | _, _ => false
+  end.
+Definition wres_eqb (a b : result doc) : bool :=
+  match a, b with Ok x, Ok y => doc_eqb x y | Err x, Err y => err_eqb x y | _, _ => false end.
+
+(* the modelled fields of an observed model (SbmlDoc.forget), numbers by value *)
+Definition met_eqb (a b : amet) : bool :=
+  str_eqb (m_id a) (m_id b) && str_eqb (m_name a) (m_name b) && opt_eqb str_eqb (m_comp a) (m_comp b) &&
+  opt_eqb Z.eqb (m_charge a) (m_charge b) && opt_eqb str_eqb (m_formula a) (m_formula b).
+Definition rxn_eqb (a b : arxn * Syntax.rule) : bool :=
+  let (x, rx) := a in let (y, ry) := b in
+  str_eqb (r_id x) (r_id y) && str_eqb (r_name x) (r_name y) && list_eqb sref_eqb (r_stoich x) (r_stoich y) &&
+  eb_eqb (r_lb x) (r_lb y) && eb_eqb (r_ub x) (r_ub y) && Qeq_bool (r_obj x) (r_obj y) && Syntax.rule_eqb rx ry.
+Definition gene_eqb (a b : agene) : bool := str_eqb (g_id a) (g_id b) && str_eqb (g_name a) (g_name b).
+Definition grp_eqb (a b : agroup) : bool :=
+  str_eqb (gr_id a) (gr_id b) && str_eqb (gr_name a) (gr_name b) && kind_eqb (gr_kind a) (gr_kind b) &&
+  list_eqb mem_eqb (gr_members a) (gr_members b).
+(* genes the reader creates for rules naming unknown genes, and groups, come from Python sets: compared sorted *)
+Definition smodel_eqb (a b : smodel) : bool :=
+  opt_eqb str_eqb (sm_id a) (sm_id b) && opt_eqb str_eqb (sm_name a) (sm_name b) &&
+  list_eqb met_eqb (sm_mets a) (sm_mets b) && list_eqb rxn_eqb (sm_rxns a) (sm_rxns b) &&
+  list_eqb gene_eqb (sm_genes a) (sm_genes b) &&
+  list_eqb (fun p q => str_eqb (fst p) (fst q) && str_eqb (snd p) (snd q)) (sm_comps a) (sm_comps b) &&
+  Bool.eqb (sm_max a) (sm_max b) && list_eqb grp_eqb (sm_groups a) (sm_groups b).
+(* every failure of read_sbml_model surfaces as CobraSBMLError: only "it failed" is compared *)
+Definition rres_eqb (a b : result smodel) : bool :=
+  match a, b with Ok x, Ok y => smodel_eqb x y | Err _, Err _ => true | _, _ => false end.
+
 Record scase := mkSCase {
   s_cfg : cfg; s_replace : bool; s_obs0 : obs;
   s_ids : list (Z * str * str * result str);
   s_bounds : list (str * ebound * ebound * (str * ebound) * (str * ebound));
   s_valid : Z;                                      (* number of validator errors on the written document *)
-  s_trips : list (Z * result obs * result obs) }.
+  s_trips : list (Z * result obs * result obs);
+  s_sm : smodel;                                    (* the model, with rule trees and groups *)
+  s_written : result doc;                           (* the document cobrapy wrote, parsed with xml.etree *)
+  s_readback : option (result smodel) }.            (* the model cobrapy read from it (None: not representable) *)
 
 (* reading back: 2 failed; 12 failed and some lower bound is above the default upper bound (reader with
    narrow defaults); 3/4/5/6 as in C11 (4, 5 cannot be excused here: SBML stores direction; compartments
@@ -73,10 +152,39 @@ Record scase := mkSCase {
 Definition strip4 (l : list nat) : list nat :=
   map (fun c => if (Nat.eqb c 4) || (Nat.eqb c 5) then 3%nat else c) l.
 
+(* step 5: write_doc vs the written document; step 6: read_doc of the written document vs the model read;
+   step 7: the theorem's instance -- inside sbml_ok the model's round trip is Ok (norm m) (a failure here
+   means the compiled theorem and this evaluation disagree: cannot happen) and, code 2, the implementation's
+   read-back is norm m as well; step 8: a written document with one SId twice is not accepted by the validator *)
+Definition doc_codes (k : scase) : list (nat * nat) :=
+  let c := s_cfg k in
+  (match s_written k with
+   | Err EUnmodelled => []                           (* a number the document record cannot hold (nan) *)
+   | w => if wres_eqb (m_write c (s_sm k)) w then [] else [(5%nat, 1%nat)]
+   end) ++
+  (match s_written k with
+   | Ok d => if negb (nodupb (core_sids d)) && (s_valid k =? 0) then [(8%nat, 1%nat)] else []
+   | _ => []
+   end) ++
+  match s_written k, s_readback k with
+  | Ok d, Some r =>
+      (* a gene in a group: the reader model describes the unpatched reader (fixes/io-sbml-group-gene-member.md);
+         no prediction, the failure itself is reported by the trip monitor as a known finding *)
+      (if existsb (fun g => existsb (fun p => fst p =? 0) (gr_members g)) (sm_groups (s_sm k)) then []
+       else if rres_eqb (m_read c d) r then [] else [(6%nat, 1%nat)]) ++
+      (if sbml_ok to_dec wnum15 cur_clean cur_env c (s_sm k) then
+         (if rres_eqb (roundtrip to_dec parse_dec wnum15 cur_clean cur_env c (s_sm k))
+                      (Ok (norm to_dec cur_env (s_sm k))) then [] else [(7%nat, 1%nat)]) ++
+         (if rres_eqb r (Ok (norm to_dec cur_env (s_sm k))) then [] else [(7%nat, 2%nat)])
+       else [])
+  | _, _ => []
+  end.
+
 Definition scase_codes (k : scase) : list (nat * nat) :=
   flat_map id_codes (s_ids k) ++
   flat_map (bound_codes (s_cfg k) (s_replace k)) (s_bounds k) ++
   (if s_valid k =? 0 then [] else [(4%nat, 7%nat)]) ++
+  doc_codes k ++
   flat_map (fun t => match t with
                      | (tag, r1, r2) =>
                          map (fun c => ((100 + Z.to_nat tag)%nat, c))
